@@ -898,6 +898,9 @@ impl Scanner for EntryScanner<'_> {
 
         // Now convert token by token.
         loop {
+            // There has to be a token: at the end of the entry or of the
+            // buffer there is nothing to convert and no room to write to.
+            self.zonefile.buf.require_token()?;
             self.convert_charstr(&mut write)?;
             if self.zonefile.buf.is_line_feed() {
                 break;
